@@ -80,10 +80,10 @@ theorem C24_light_min_max_over (H : OpsOK) (Q : QueriesOK) (anno : Nat → SI) (
 /-! ## with the proved interval operations discharged
 
 `add, sub, neg, not, and, or, xor, concat, zero_extend, sign_extend, extract, udiv, shl, lshr, ashr`, the join of `If`, the eight
-orderings and `==` / `!=` are proved (C21, C22), so for these no hypothesis on interval operations is needed.  `OpsRest` (mul,
-urem) is consulted only if the AST uses one of them.  `==` / `!=` decide through the meet, which is sound on ALIGNED operands
-only (open findings `C2x/eq|ne|intersection/unsound/unaligned-operand`): the guard `alBV` / `alB` says that the abstract
-operands at every `==` / `!=` node are aligned; it is void for ASTs without these nodes (`alBV_of_noEq`).  ASTs here have a
+orderings, `==` / `!=` and `*` are proved (C21, C22), so for these no hypothesis on interval operations is needed.  `OpsRest`
+(urem) is consulted only if the AST uses it.  `==` / `!=` / `*` go through the meet, which is sound on ALIGNED operands only
+(open findings `C2x/eq|ne|mul|intersection/unsound/unaligned-operand`): the guard `alBV` / `alB` says that the abstract
+operands at every `==` / `!=` / `*` node are aligned; it is void for ASTs without these nodes (`alBV_of_noEq`).  ASTs here have a
 value at every node (`DefBV`); the annotations are in the form the constructor returns (`Nrm`, which is the only form Python
 holds), and the induction shows every intermediate abstract value has it too — that is what the signed orderings and the
 meet need. -/
@@ -99,7 +99,7 @@ theorem C24_convert_sound_rest (anno : Nat → SI) (env : Nat → Nat)
 
 /-- **unconditional on the interval operations** for ASTs built from the proved operations: variables with annotations,
 constants, `+ - neg ~ & | ^`, `ZeroExt`, `SignExt`, `Extract`, `Concat`, `/u`, `<<`, `LShR`, `>>` (arithmetic), `If`, the
-unsigned and signed orderings, the Boolean connectives, and `==` / `!=` under the alignment guard -/
+unsigned and signed orderings, the Boolean connectives, and `==` / `!=` / `*` under the alignment guard -/
 theorem C24_fragment_sound (anno : Nat → SI) (env : Nat → Nat)
     (hctx : ∀ i, (anno i).WF ∧ (anno i).mem (env i)) (hnrm : ∀ i, Nrm (anno i))
     (e : BV) (hfrag : usesRestBV e = false) (hdef : DefBV env e)
@@ -107,7 +107,7 @@ theorem C24_fragment_sound (anno : Nat → SI) (env : Nat → Nat)
     (v : Nat) (hv : evalBV env e = some v) : av.si.WF ∧ av.si.bits = wd e ∧ av.si.mem v :=
   C24_convert_sound_rest anno env hctx hnrm e (fun hh => by rw [hfrag] at hh; cases hh) hdef o o' hal av hwt h v hv
 
-/-- … without any guard when the AST has no `==` / `!=` node -/
+/-- … without any guard when the AST has no `==` / `!=` / `*` node -/
 theorem C24_fragment_noeq_sound (anno : Nat → SI) (env : Nat → Nat)
     (hctx : ∀ i, (anno i).WF ∧ (anno i).mem (env i)) (hnrm : ∀ i, Nrm (anno i))
     (e : BV) (hfrag : usesRestBV e = false) (hnoeq : usesEqBV e = false) (hdef : DefBV env e)
@@ -169,7 +169,7 @@ def demoEq : BV := .ite (.cmp .eq (.bin .and (.var 0 3) (.const 6 3)) (.const 4 
 example : usesRestBV demoEq = false ∧ alBV demoAnno demoEq [] := by
   refine ⟨by decide, ?_⟩
   simp only [demoEq, alBV, alB, true_and]
-  refine ⟨⟨fun _ _ => trivial, ?_⟩, fun _ _ _ _ => trivial⟩
+  refine ⟨⟨(fun _ _ he => (by cases he)), ?_⟩, fun _ _ _ _ => trivial⟩
   intro p1 h1 _ p2 h2
   have e1 : p1 = ({ si := { bits := 3, stride := 1, lb := 2, ub := 6 } }, []) := by
     have : convBV demoAnno (.bin .and (.var 0 3) (.const 6 3)) [] = .ok ({ si := { bits := 3, stride := 1, lb := 2, ub := 6 } }, []) := by decide
